@@ -1,60 +1,43 @@
 #!/usr/bin/env python3
-"""Regenerate lean/Driver.lean from the modules present under lean/NdnModel/Drv/.
-Each module `NdnModel/Drv/<Tag>.lean` defines `Ndn.Drv.<Tag>.handle : List String → String`;
-a protocol line `<Tag> arg1 arg2 …` is dispatched on its first token."""
-import os, sys
+"""Regenerate the lake configuration and the per-property driver entry points.
+
+Every module `lean/NdnModel/Drv/<Tag>.lean` defines `Ndn.Drv.<Tag>.handle : List String → String`.
+For each one this script writes `lean/DrvMain/<Tag>.lean` (a three-line `main`) and a
+`[[lean_exe]] drv_<Tag>` entry in lakefile.toml, so each property has its own compiled model driver
+(`lean/.lake/build/bin/drv_<Tag>`) and a broken model of one property cannot block the others.
+It also rewrites the library root files NdnModel.lean / NdnGen.lean / NdnProofs.lean."""
+import os
 ROOT = os.path.dirname(os.path.dirname(os.path.abspath(__file__)))
 LEAN = os.path.join(ROOT, 'lean')
 
+
+def write_if_changed(p, text):
+    if not os.path.exists(p) or open(p).read() != text:
+        os.makedirs(os.path.dirname(p), exist_ok=True)
+        open(p, 'w').write(text)
+
+
 def main():
     tags = sorted(f[:-5] for f in os.listdir(os.path.join(LEAN, 'NdnModel', 'Drv')) if f.endswith('.lean'))
-    out = []
     for t in tags:
-        out.append(f'import NdnModel.Drv.{t}')
-    out.append('')
-    out.append('def dispatch (line : String) : String :=')
-    out.append('  match (line.splitOn " ").filter (· ≠ "") with')
-    for t in tags:
-        out.append(f'  | "{t}" :: args => Ndn.Drv.{t}.handle args')
-    out.append('  | _ => "bad-op"')
-    out.append('')
-    out.append('partial def loop (h : IO.FS.Stream) (o : IO.FS.Stream) : IO Unit := do')
-    out.append('  let line ← h.getLine')
-    out.append('  if line.isEmpty then return ()')
-    out.append('  let l := line.trimAscii.toString')
-    out.append('  o.putStrLn (dispatch l)')
-    out.append('  loop h o')
-    out.append('')
-    out.append('def main : IO Unit := do')
-    out.append('  let o ← IO.getStdout')
-    out.append('  loop (← IO.getStdin) o')
-    out.append('  o.flush')
-    text = '\n'.join(out) + '\n'
-    p = os.path.join(LEAN, 'Driver.lean')
-    if not os.path.exists(p) or open(p).read() != text:
-        open(p, 'w').write(text)
-    # NdnModel.lean root imports everything under NdnModel/
-    mods = []
-    for d, _, fs in os.walk(os.path.join(LEAN, 'NdnModel')):
-        for f in fs:
-            if f.endswith('.lean'):
-                rel = os.path.relpath(os.path.join(d, f), LEAN)[:-5].replace(os.sep, '.')
-                mods.append(rel)
-    text = ''.join(f'import {m}\n' for m in sorted(mods))
-    p = os.path.join(LEAN, 'NdnModel.lean')
-    if not os.path.exists(p) or open(p).read() != text:
-        open(p, 'w').write(text)
-    for lib in ('NdnProofs', 'NdnGen'):
+        write_if_changed(os.path.join(LEAN, 'DrvMain', f'{t}.lean'),
+                         f'import NdnModel.Drv.{t}\nimport NdnModel.DriverMain\n\n'
+                         f'def main : IO Unit := Ndn.driverMain Ndn.Drv.{t}.handle\n')
+    exes = ''.join(f'\n[[lean_exe]]\nname = "drv_{t}"\nroot = "DrvMain.{t}"\n' for t in tags)
+    targets = ', '.join(['"NdnModel"', '"NdnGen"', '"NdnProofs"'] + [f'"drv_{t}"' for t in tags])
+    write_if_changed(os.path.join(LEAN, 'lakefile.toml'),
+                     f'name = "ndn"\nversion = "0.1.0"\ndefaultTargets = [{targets}]\n\n'
+                     '[[lean_lib]]\nname = "NdnModel"\n\n[[lean_lib]]\nname = "NdnGen"\n\n[[lean_lib]]\nname = "NdnProofs"\n'
+                     + exes)
+    for lib in ('NdnModel', 'NdnProofs', 'NdnGen'):
         mods = []
         for d, _, fs in os.walk(os.path.join(LEAN, lib)):
             for f in fs:
-                if f.endswith('.lean') and os.sep + 'Audit' + os.sep not in os.path.join(d, f):
-                    rel = os.path.relpath(os.path.join(d, f), LEAN)[:-5].replace(os.sep, '.')
-                    mods.append(rel)
-        text = ''.join(f'import {m}\n' for m in sorted(mods))
-        p = os.path.join(LEAN, lib + '.lean')
-        if not os.path.exists(p) or open(p).read() != text:
-            open(p, 'w').write(text)
+                full = os.path.join(d, f)
+                if f.endswith('.lean') and os.sep + 'Audit' + os.sep not in full:
+                    mods.append(os.path.relpath(full, LEAN)[:-5].replace(os.sep, '.'))
+        write_if_changed(os.path.join(LEAN, lib + '.lean'), ''.join(f'import {m}\n' for m in sorted(mods)))
+
 
 if __name__ == '__main__':
     main()
